@@ -58,10 +58,70 @@ def generate(ctx, n):
     return scns
 
 
+def directed(ctx, n):
+    """directed histories (added after seeded changes that only the correspondence noticed): cached
+    expressions whose keys() must take EVERY element / EVERY member attempt into account, evaluated
+    under dictionaries that differ only in a key read late:
+    - a cached (or dataset-held) Map whose mapped expression branches on the mapped key, so that
+      different elements read different options (generator shared with C03);
+    - a cached coalesce whose earlier member has all its keys PRESENT but still fails (value outside
+      its domain, a bind that raises, a switch without a matching case), so that the later member
+      decides the outcome."""
+    import props.c03 as c03
+    from gen import K, FLAT
+    from core import lit
+    rng = ctx.rng
+    out = []
+    for i in range(n):
+        if i % 2 == 0:
+            g = c03.BranchMapGen(rng)
+            s = g.scenario_branchmap(n_ops=10)
+            root = s["exprs"][0]
+            if root[0] == "map":
+                root = ("tolist", root)
+            if root[0] not in ("dataset", "cached"):
+                root = ("cached", 900, root)
+            ops = [(("evaluate" if rng.random() < 0.75 else m), j, cc, lc, o) for (m, j, cc, lc, o) in s["ops"]]
+            out.append(dict(s, exprs=[root], ops=ops))
+            continue
+        g = gen.Gen(rng)
+        a, b, c = K(FLAT[0]), K(FLAT[1]), K(FLAT[2])
+        good, bad = rng.choice([1, 2, lit("a")]), rng.choice([7, lit("z"), None])
+        kind = rng.choice(["domain", "bind", "switch", "domain"])
+        if kind == "domain":
+            first = ("option", a, None, ("value", ("j", [good, 5])))
+        elif kind == "bind":
+            first = ("bind", ("option", a, None, None), [(("j", good), ("value", ("j", lit("hit"))))], None)
+        else:
+            first = ("switch", ("option", a, None, None), [(("j", good), ("value", ("j", lit("hit"))))], None)
+        later = rng.choice([("option", b, None, None),
+                            ("call", g.newf(("tag",)), [("option", b, None, None)]),
+                            ("switch", ("option", b, None, None), [(("j", 1), ("option", c, None, None))],
+                             ("value", ("j", lit("dflt"))))])
+        members = [first, later] + ([("value", ("j", lit("last")))] if rng.random() < 0.5 else [])
+        co = ("coalesce", members)
+        w = rng.random()
+        if w < 0.5:
+            root = ("cached", 901, co)
+        elif w < 0.8:
+            g.env[1] = dict(fid=g.newf(("tag",)), kwargs=[co])
+            root = ("dataset", 1)
+        else:
+            root = ("cached", 901, ("call", g.newf(("tag",)), [co]))
+        base = {FLAT[0]: bad, FLAT[1]: 1, FLAT[2]: 3}
+        pool = [base, {**base, FLAT[1]: 2}, {**base, FLAT[2]: 4}, {**base, FLAT[0]: good},
+                {FLAT[1]: 1, FLAT[2]: 3}, {**base, FLAT[1]: 2, FLAT[2]: 4}, {FLAT[0]: bad}]
+        ops = [("evaluate", 0, False, False, base), ("evaluate", 0, False, False, pool[1])]
+        for _ in range(8):
+            ops.append((rng.choice(("evaluate", "evaluate", "evaluate", "keys", "validate")), 0, False, False, rng.choice(pool)))
+        out.append(dict(ftable=dict(g.ftable), env=dict(g.env), exprs=[root], ops=ops))
+    return out
+
+
 def run(ctx):
     n = 2000 if ctx.quick else 12000
     corpus = corpus_for(PID)
-    scns = [s for _, s in corpus] + generate(ctx, n)
+    scns = [s for _, s in corpus] + generate(ctx, n) + directed(ctx, 160 if ctx.quick else 1600)
     impls, models, mism, stats = cp.correspondence(ctx, scns, "Cases_C01")
     violations, distinct, oracle_checks, tagged = [], set(), 0, {}
     # the theorem's hypotheses, evaluated by the model on what was generated; inside them the
